@@ -232,6 +232,8 @@ where
                 0.1055093006,
             ]; // coefficients from Table 1
             let (px, py) = if k < F::from(10.0).unwrap() {
+                #[cfg(rand_distr_verif)]
+                crate::verif_hooks::probe(44);
                 let px = -self.lambda;
                 let py = self.lambda.powf(k) / F::from(FACT[k.to_usize().unwrap()]).unwrap();
 
@@ -242,6 +244,8 @@ where
                 let v = (self.lambda - k) / k;
 
                 let px = if v.abs() <= F::from(0.25).unwrap() {
+                    #[cfg(rand_distr_verif)]
+                    crate::verif_hooks::probe(45);
                     k * v.powi(2)
                         * A.iter()
                             .rev()
@@ -250,6 +254,8 @@ where
                             }) // Σ a_i * v^i
                         - delta
                 } else {
+                    #[cfg(rand_distr_verif)]
+                    crate::verif_hooks::probe(46);
                     k * (F::one() + v).ln() - (self.lambda - k) - delta
                 };
 
@@ -274,24 +280,32 @@ where
 
             // Step I
             if k1 >= self.l {
+                #[cfg(rand_distr_verif)]
+                crate::verif_hooks::probe(38);
                 return k1;
             }
 
             // Step S
             let u: F = rng.random();
             if self.d * u >= (self.lambda - k1).powi(3) {
+                #[cfg(rand_distr_verif)]
+                crate::verif_hooks::probe(39);
                 return k1;
             }
 
             let (px, py, fx, fy) = f(k1);
 
             if fy * (F::one() - u) <= py * (px - fx).exp() {
+                #[cfg(rand_distr_verif)]
+                crate::verif_hooks::probe(40);
                 return k1;
             }
         }
 
         loop {
             // Step E
+            #[cfg(rand_distr_verif)]
+            crate::verif_hooks::probe(41);
             let e = Exp1.sample(rng);
             let u: F = rng.random() * F::from(2.0).unwrap() - F::one();
             let t = F::from(1.8).unwrap() + e * u.signum();
@@ -300,6 +314,8 @@ where
                 let (px, py, fx, fy) = f(k2);
                 // Step H
                 if self.c * u.abs() <= py * (px + e).exp() - fy * (fx + e).exp() {
+                    #[cfg(rand_distr_verif)]
+                    crate::verif_hooks::probe(42);
                     return k2;
                 }
             }
